@@ -57,9 +57,10 @@ REQUIRED_THEOREMS = [
     "C03.tuple_ignores_filename",
     "C03.level_zero_rule",
     "C03.extension_implies_method",
-    "C03.sniff_keeps_cursor_partial",
+    "C03.sniff_keeps_cursor",
+    "C03.sniff_nonseekable_partial",
     "C03.sniff_short_peek_counterexample",
-    "C03.load_after_dump_at_offset_partial",
+    "C03.load_after_dump_at_offset",
     "C03.sniff_peekless_rewinds",
     "C03.load_peekless_from_start",
     "C03.load_peekless_without_rewinding",
